@@ -73,6 +73,11 @@ inputs, sample of observations, `further_ties`: the outcome of every additional 
 
 * Coq 8.16.1 kernel; `vm_compute` (no `native_compute`); no axioms: every `Print Assumptions` says "Closed under the global
   context" (QArith, MSetRBT, Lia are axiom-free); nothing declared with Axiom / Parameter / Admitted; no kernel check switched off.
+  `bin/coqchk` re-checks the compiled property files and everything they depend on with Coq's independent checker (ten minutes;
+  its last summary is kept in `coqchk_summary.txt`): "Axioms: <none>", nothing relying on type-in-type, unsafe fixpoints or
+  assumed positivity.
+* `harness/gen_consts.py` also regenerates `Generated/SerialLayout.v` (the process-image layout of the two-channel serial terminals,
+  read from terminals.py with `ast`, fail-closed; compared with the live descriptor objects on every run of C28).
 * `harness/gen_consts.py` (ast reader), `harness/common.py` (case files, result parsing), `coqc` printing.
 * The hand-written models: the tie is differential testing, so it is only as good as the generated inputs; every evidence
   file records the generation rule and the distribution actually produced.
